@@ -120,12 +120,15 @@ def check_chain(chain, spellings, joiners, cfg, ctx, rep, pytrs):
             ocr = len(text) % 2 == 0
             pcfg = ','.join(filter(None, [cfg, 'parse_qq',
                                           'ocr_scrub' if ocr else '']))
-            d = pytrs.PLSSDesc(f"T154N-R97W Sec 14: {text}", config=pcfg)
+            # in front of its section (desc - Sec - Twp/Rge) every second time
+            ptxt = (f"T154N-R97W Sec 14: {text}" if len(text) % 4 < 2 else
+                    f"{text} of Section 14, T154N-R97W")
+            d = pytrs.PLSSDesc(ptxt, config=pcfg)
             if len(d.tracts) != 1 or d.tracts[0].qqs != b.qqs \
                     or d.tracts[0].lots != b.lots:
                 ctx.violation(
                     'results-differ', case,
-                    f"PLSSDesc('T154N-R97W Sec 14: {text}', config {pcfg!r})"
+                    f"PLSSDesc({ptxt!r}, config {pcfg!r})"
                     f" gives {[(t.lots, t.qqs, t.pp_desc) for t in d.tracts]}"
                     f"; Tract({canon!r}, config {cfg!r}) gives {b.lots} "
                     f"{b.qqs}", dedup=f"plss|{ocr}")
